@@ -300,7 +300,7 @@ class SpecEvalMixin:
         if isinstance(container, VDict):
             it = self.unwrap(item) if not (isinstance(container.k, KOpt)) else None
             if it is not None and isinstance(it, (VBytes, VStr, VInt)) and isinstance(container.k, KPrim) \
-                    and elem_sort(container.k) in (SEQI, STR, INT) and it.t.sort != elem_sort(container.k):
+                    and container.k.name in ("int", "str", "bytes") and it.t.sort != elem_sort(container.k):
                 # a bytes / str / int key looked up in a table keyed by another of these types: never equal to any key
                 return FALSE
             return self.dict_has(st, container, self.key_term(item, container.k))
